@@ -1,1 +1,57 @@
-(* C02 — theorems: see stream model (work in progress) *)
+(* C02 — checksummed streams never yield wrong bytes: the part that is logic.
+   The decoding task compares the stored hash with the hash of the block it rebuilt and reports
+   the block as failed when they differ (a 32/64-bit hash cannot exclude collisions, so "every
+   modification is noticed" is not a theorem about any implementation; that the comparison is
+   made on every block and gates the hand-over is exercised by search over payload damage).
+   What is proved, for the Reader model and EVERY set of failing blocks, data, range, job count
+   and sequence of Reads: the bytes handed out are always a prefix of the original data - never
+   other bytes; they all come from before the first failing block; no call reports end-of-stream;
+   every call after the one that reported the error returns the error and no byte. *)
+From Coq Require Import List NArith ZArith Lia.
+From KV Require Import Model.Writer Model.Reader Proofs.ReaderProofs Proofs.ReaderGen.
+Import ListNotations.
+Open Scope N_scope.
+
+Theorem C02_reported_block_never_yields_wrong_bytes : forall B jobs hint from to data dfr rest ns, 0 < B -> 0 < jobs ->
+  dmg dfr (chunks B data) ->
+  let out := fst (do_reads_g B jobs hint from to (init_r (dfr ++ FEnd :: rest)) ns) in
+  (exists m, concat (map fst out) = firstn m (range_bytes B from to data)) /\
+  (clean B from to 0 dfr -> out = spec_reads (range_bytes B from to data) ns) /\
+  (~ clean B from to 0 dfr ->
+     ~ In REOF (map snd out) /\
+     (forall l1 x l2, out = l1 ++ x :: l2 -> snd x = RErr -> Forall (fun y => y = ([], RErr)) l2) /\
+     exists pre q k, dfr = pre ++ FFail :: q /\ clean B from to 0 pre /\ (k <= length pre)%nat /\
+       concat (map fst out) = firstn (length (concat (map fst out))) (range_bytes B from to (firstn (k * N.to_nat B) data))).
+Proof.
+  intros B jobs hint from to data dfr rest ns HB HJ Hd out.
+  assert (Hgood : clean B from to 0 dfr -> out = spec_reads (range_bytes B from to data) ns).
+  { intros Hc. apply (reader_range B jobs hint from to HB HJ data dfr rest ns Hd Hc). }
+  assert (Hbad : ~ clean B from to 0 dfr -> exists pre q k, dfr = pre ++ FFail :: q /\ clean B from to 0 pre /\ (k <= length pre)%nat /\
+            out = spec_reads_g (range_bytes B from to (firstn (k * N.to_nat B) data)) true ns).
+  { intros Hn. destruct (reader_damaged B jobs hint from to HB HJ data dfr rest ns Hd Hn) as (pre & q & k & E & Hc & _ & Hk & Hr).
+    exists pre, q, k. auto. }
+  split; [|split; [exact Hgood|]].
+  - destruct (dmg_split B jobs from to HB HJ dfr _ Hd (chunks_wsz B jobs HB HJ (length data) data (le_n _)) 0) as [Hc|(pre & q & E & Hc & Hs)].
+    + rewrite (Hgood Hc). rewrite <- spec_reads_g_noerr. apply (spec_reads_g_prefix B jobs HB HJ).
+    + assert (Hn : ~ clean B from to 0 dfr).
+      { intros Hc'. rewrite E in Hc'. apply (clean_app B jobs from to HB HJ) in Hc'. destruct Hc' as [_ Hc']. cbn [clean] in Hc'.
+        destruct Hc' as [Hc' _]. cbn [N.add] in Hs, Hc'. rewrite Hs in Hc'. discriminate. }
+      destruct (Hbad Hn) as (pre' & q' & k & _ & _ & _ & Hr). rewrite Hr.
+      destruct (spec_reads_g_prefix B jobs HB HJ ns (range_bytes B from to (firstn (k * N.to_nat B) data)) true) as [m1 H1].
+      destruct (range_bytes_prefix B jobs from to HB HJ data (k * N.to_nat B)) as [m2 H2].
+      rewrite H1, H2, firstn_firstn. eexists. reflexivity.
+  - intros Hn. destruct (Hbad Hn) as (pre & q & k & E & Hc & Hk & Hr). split; [rewrite Hr; apply (spec_reads_g_never_eof B jobs HB HJ)|]. split.
+    + rewrite Hr. intros l1 x l2. apply spec_reads_g_sticky.
+    + exists pre, q, k. split; [exact E|]. split; [exact Hc|]. split; [exact Hk|].
+      rewrite Hr. destruct (spec_reads_g_prefix B jobs HB HJ ns (range_bytes B from to (firstn (k * N.to_nat B) data)) true) as [m1 H1].
+      rewrite H1, firstn_length. set (R := range_bytes B from to (firstn (k * N.to_nat B) data)).
+      destruct (Nat.le_gt_cases m1 (length R)) as [Hle|Hgt].
+      * replace (Nat.min m1 (length R)) with m1 by lia. reflexivity.
+      * replace (Nat.min m1 (length R)) with (length R) by lia. rewrite firstn_all, firstn_all2 by lia. reflexivity.
+Qed.
+Print Assumptions C02_reported_block_never_yields_wrong_bytes.
+
+Example C02_instance :
+  fst (do_reads_g 4 2 0 0 0 (init_r ([FData [1;2;3;4]; FData [5;6;7;8]; FFail; FData [13]] ++ [FEnd])) [6; 4; 1]) =
+  [([1;2;3;4;5;6], RNil); ([7;8], RErr); ([], RErr)].
+Proof. vm_compute. reflexivity. Qed.
